@@ -3,6 +3,7 @@
 -/
 import PsProofs.IterFault
 import PsProps.C11
+import PsModel.Generated.Locks
 
 namespace Ps.Props
 open Ps Ps.Spec
@@ -43,5 +44,16 @@ example (env : Env) (henv : EnvOK env) :
     FaultRun (.fresh 10) [.nextFault 1, .plain (.next 1)]
       (Iter.runF env (Iter.mk' 10 100) [.nextFault 1, .plain (.next 1)]) :=
   C13_iterator_fault_safe env henv 10 100 (by decide) _ (by intro op hop; simp at hop; rcases hop with rfl | rfl <;> trivial)
+
+/-- **C13 (model sources)** regenerated on every run: digests of the (comment-, hook- and whitespace-normalised) bodies of the
+    functions that the hand-written model behind the theorems of this file mirrors.  An edit to one of
+    them — harmless or not — breaks this obligation; the check then searches for a failing input
+    with the correspondence streams (DESIGN.md section 2, step 5). -/
+theorem C13_model_sources :
+    Gen.modelSources.filter (fun e => e.1 ∈ ["iterator.generate_next_primes", "iterator.generate_prev_primes", "iterator-c.generate_next_primes", "iterator-c.generate_prev_primes"]) =
+     [("iterator.generate_next_primes", "2a13a14724829f92f5fe"),
+      ("iterator.generate_prev_primes", "1784049c687ca3b8c7e8"),
+      ("iterator-c.generate_next_primes", "f2b77575cffe55b64d7e"),
+      ("iterator-c.generate_prev_primes", "686803fbb620259da67e")] := by decide
 
 end Ps.Props
